@@ -467,6 +467,11 @@ class C13(Property):
     def evaluate(self, w, c):
         impl, v = w.eval(c, [self.pid])
         res = self.judge(c, impl, v, w)
+        if res["status"] == "corr" and impl.get("outcome") == "ok" and impl.get("header") is not None:
+            kf = self.compile_header(w, c, impl["header"])
+            if kf is not None and kf["status"] == "violation":
+                res.update(kf)
+            return res
         if res["status"] != "ok" or impl.get("outcome") != "ok" or not fs_safe(c) or impl.get("header") is None:
             return res
         # the header file `save_other_files` writes, in both modes: present, and the text of the in-memory export
@@ -494,7 +499,42 @@ class C13(Property):
                     for p in hp:
                         if fimpl3.get("files", {}).get(p) != impl["header"]:
                             res.update(status="violation", why="regenerated over an older, longer file the symbols header %s is not the header of the generated symbols" % p)
+        if res["status"] == "ok":
+            kf = self.compile_header(w, c, impl["header"])
+            if kf is not None:
+                res.update(kf)
         return res
+
+    def compile_header(self, w, c, header):
+        """the header is a self-contained C file (the declared type is the user's: it is typedef'd in front). Returns None
+        when it compiles, a known-finding verdict when the only offending names are documented spellings that are no C
+        identifiers because the document's own names are none, a violation otherwise."""
+        import subprocess, shutil
+        if shutil.which("gcc") is None:
+            return None
+        st = c["doc"].get("settings") if isinstance(c["doc"].get("settings"), dict) else {}
+        ty = (st or {}).get("symbols_header_type", "char")
+        pre = "" if ty in ("char", "unsigned char", "int", "unsigned int") else "typedef unsigned int %s;\n" % ty
+        if not re.match(r"^[A-Za-z_][A-Za-z0-9_ ]*$", str(ty)):
+            return None
+        p = subprocess.run(["gcc", "-fsyntax-only", "-std=c99", "-x", "c", "-"], input=pre + header, capture_output=True, text=True, timeout=30)
+        if p.returncode == 0:
+            return None
+        names = re.findall(r"^extern .*?([^\s\[\];]+)(?:\[\])?;$", header, re.M)
+        bad = [n for n in names if not re.match(r"^[A-Za-z_][A-Za-z0-9_]*$", n)]
+        info = w.d.ask({"op": "docinfo", "case": {"id": c["id"], "doc": tree.to_proto(c["doc"]), "opts": c["opts"]}})
+        documented = set()
+        if info and "segments" in info:
+            for sg in info["segments"]:
+                documented |= {sg[k] for k in ("rom_start", "rom_end", "rom_size", "vram", "vram_end", "vram_size")}
+                documented |= set(sg["alloc"].values()) | set(sg["noload"].values()) | set(sg.get("offsets") or [])
+                for sc in sg["sections"]:
+                    documented |= {sc["start"], sc["end"], sc["size"]}
+            for cl in info.get("classes", []):
+                documented |= {cl["start"], cl["end"], cl["size"]}
+        if bad and all(n in documented for n in bad):
+            return {"status": "kf:KF-C13-names-not-identifiers", "why": "known finding KF-C13-names-not-identifiers: %s" % bad[0]}
+        return {"status": "violation", "why": "the symbols header is not a C file a compiler accepts: %s" % (bad[:3] or p.stderr[:200])}
 
     def nontrivial(self, c):
         d = c["doc"]
@@ -1082,6 +1122,28 @@ class C15(Property):
                     res.update(status="violation", why="regenerating over longer files at the same paths gives other files than generating into an "
                                "empty directory: " + ",".join(diff)[:200])
                     return res
+        # ... nor a header that an earlier generation of a sibling document left at the same place: same symbols, other
+        # `symbols_header_type` / `symbols_header_as_array`
+        st = c["doc"].get("settings")
+        if fs_safe(c) and isinstance(st, dict) and "symbols_header_path" in st and impl.get("header"):
+            sib = copy.deepcopy(c["doc"])
+            sib["settings"]["symbols_header_type"] = "other_t" if st.get("symbols_header_type") != "other_t" else "char"
+            sib["settings"]["symbols_header_as_array"] = not st.get("symbols_header_as_array", True)
+            fs_ = impl_request(dict(c, doc=sib, repeat=1))
+            fs_["op"] = "files"
+            fs_["out"] = "out/script.ld"
+            fsib = w.h.run(fs_)
+            freq = impl_request(dict(c, repeat=1))
+            freq["op"] = "files"
+            freq["out"] = "out/script.ld"
+            f1 = w.h.run(freq)
+            if fsib.get("outcome") == "ok" and f1.get("outcome") == "ok" and fsib.get("files"):
+                f3 = w.h.run(dict(freq, pre=[[p, t] for p, t in fsib["files"].items()]))
+                if f3.get("outcome") != "ok" or f3.get("files") != f1.get("files"):
+                    diff = sorted(p for p in set(f1["files"]) | set(f3.get("files") or {}) if f1["files"].get(p) != (f3.get("files") or {}).get(p))
+                    res.update(status="violation", why="generating after a sibling document (other header type) had been generated at the same paths gives "
+                               "other files than generating into an empty directory: " + ",".join(diff)[:200])
+                    return res
         # the option *map* decides, not the order in which distinct options were supplied
         last = {}
         for k, val in c["opts"]:
@@ -1219,6 +1281,18 @@ class C19(Property):
     def extra_cases(self, tier):
         """every hostile snippet, in both modes, on every run (they used to be drawn at random)"""
         out = []
+        # a deep acyclic sub-group table whose paths re-converge: 2^48 paths, 144 entries (a check that re-explores per path never returns)
+        ladder = {}
+        for i in range(48):
+            ladder[".s%d" % i] = [".a%d" % i, ".b%d" % i]
+            ladder[".a%d" % i] = [".s%d" % (i + 1)]
+            ladder[".b%d" % i] = [".s%d" % (i + 1)]
+        for k, doc in enumerate([
+                {"settings": {"sections_subgroups": ladder}, "segments": [{"name": "boot", "files": [{"path": "a.o"}]}]},
+                {"settings": {"sections_subgroups": ladder, "partial_scripts_folder": "ps", "partial_build_segments_folder": "pb"},
+                 "segments": [{"name": "boot", "alloc_sections": [".text", ".s40"], "files": [{"path": "a.o"}]}]}]):
+            out.append({"id": "ladder%d" % k, "seed": 900 + k, "stream": "valid", "doc": doc, "opts": [], "mode": "normal" if k == 0 else "partial",
+                        "version_comment": False, "link": False})
         for i, text in enumerate(HOSTILE_SNIPPETS):
             for mode in ("normal", "partial"):
                 out.append({"id": "hostile%d%s" % (i, mode[0]), "seed": 1000 + i, "stream": "raw-bytes", "doc": {}, "opts": [["version", "us"]],
@@ -1611,6 +1685,24 @@ class C04(ImageProperty):
         if have != want:
             res.update(status="violation", why="ROM symbols of the emitted segments, in document order: expected %s..., the script assigns %s..." % (want[:6], have[:6]))
             return res
+        # the ROM counter is rounded exactly where a segment asks for it: start alignment in front of the ROM start symbol,
+        # end alignment behind the size of the allocatable part
+        wantA = []
+        for sg in info["segments"]:
+            if sg["emitted"]:
+                wantA += [("start", sg["rom_start"], sg["start_align"])] if sg.get("start_align") is not None else []
+                wantA += [("end", sg["rom_end"], sg["end_align"])] if sg.get("end_align") is not None else []
+        gotA = []
+        lines = rom_lines(impl.get("script"))
+        for i, t in enumerate(lines):
+            m = re.match(r"^__romPos = ALIGN\(__romPos, 0x([0-9A-Fa-f]+)\);$", t)
+            if m:
+                nxt = next((re.match(r"^(\S+) = __romPos;$", u).group(1) for u in lines[i + 1:] if re.match(r"^(\S+) = __romPos;$", u)), None)
+                gotA.append(("start" if nxt and nxt.endswith(tuple(sg["rom_start"] for sg in info["segments"])) and nxt in {sg["rom_start"] for sg in info["segments"]} else "end",
+                             nxt, int(m.group(1), 16)))
+        if gotA != wantA:
+            res.update(status="violation", why="roundings of the ROM counter: requested %s..., the script has %s..." % (wantA[:4], gotA[:4]))
+            return res
         if c["mode"] == "partial":
             from .engine import impl_request
             implN = w.h.run(impl_request(dict(c, mode="normal", id=c["id"] + ":normal")))
@@ -1722,7 +1814,20 @@ class C09(ImageProperty):
         # ones, in place and in order (an option that is null or absent adds none; a requested one is not lost)
         impl = w.h.run(engine_request(c))
         info = w.d.ask({"op": "docinfo", "case": {"id": c["id"], "doc": tree.to_proto(c["doc"]), "opts": c["opts"]}})
-        if impl.get("outcome") != "ok" or not info or "segments" not in info or info["single"]:
+        if impl.get("outcome") != "ok" or not info or "segments" not in info:
+            return res
+        # single-segment layout (single_segment_mode, and every partial script): one output section per section group,
+        # each with the segment's SUBALIGN
+        byname = {sg["name"]: sg for sg in info["segments"]}
+        layouts = [(info["segments"][0], impl.get("script") or "")] if info["single"] and info["segments"] else \
+            [(byname[n], t) for n, t in impl.get("partials", []) if n in byname]
+        for sg, text in layouts:
+            wantS = [sg["subalign"]] * len(sg["sections"]) if sg.get("subalign") is not None else []
+            gotS = [int(x) for x in re.findall(r"SUBALIGN\((\d+)\)", text)]
+            if gotS != wantS:
+                res.update(status="violation", why="SUBALIGN attributes of the script of segment %s: %s, requested %s" % (sg["name"], gotS[:6], wantS[:6]))
+                return res
+        if info["single"]:
             return res
         want, subs = [], []
         for sg in info["segments"]:
